@@ -112,6 +112,10 @@ def main():
     notes = os.path.join(outdir, "NOTES.md")
     if os.path.exists(notes):
         shutil.copy(notes, os.path.join(d, "SEEDER_NOTES.md"))
+    needs = os.path.join(V, "seeded", "NEEDS.json")
+    if os.path.exists(needs):
+        meta["needs_to_manifest"] = json.load(open(needs)).get(meta["id"], "see SEEDER_NOTES.md")
+    meta["breaks_property"] = prop
     json.dump(meta, open(os.path.join(d, "meta.json"), "w"), indent=1)
     print(json.dumps({k: meta.get(k) for k in ("id", "demo_passes_without", "patch_applies", "builds_and_vets",
                                                 "demo_fails_with", "existing_tests_pass", "caught")}))
